@@ -169,6 +169,89 @@ Proof.
   rewrite E. exact H.
 Qed.
 
+(* ---------------- Neumann rows: soundness of check_neumann_row ------------------------------ *)
+(* formal derivative of a coefficient list, and the moments of "evaluate the derivative at t" *)
+Fixpoint pderiv_from (k : nat) (c : list Q) : list Q :=
+  match c with [] => [] | a :: c' => (inject_Z (Z.of_nat k) * a) :: pderiv_from (S k) c' end.
+Definition pderiv (c : list Q) : list Q := match c with [] => [] | _ :: c' => pderiv_from 1 c' end.
+Definition qdmom (t : Q) (k : nat) : Q := match k with O => 0 | S k' => inject_Z (Z.of_nat k) * qpow t k' end.
+
+Lemma lin_from_qdmom t c : forall k,
+  lin_from (S k) c (qdmom t) == qpow t k * peval (pderiv_from (S k) c) t.
+Proof.
+  induction c as [|a c IH]; intros k; cbn [lin_from pderiv_from].
+  - unfold peval; cbn [fold_right]. ring.
+  - rewrite IH. unfold peval; cbn [fold_right]. fold (peval (pderiv_from (S (S k)) c) t).
+    cbn [qdmom qpow]. ring.
+Qed.
+
+Lemma peval_pderiv t c : peval (pderiv c) t == lin_from 0 c (qdmom t).
+Proof.
+  destruct c as [|a c]; cbn [pderiv lin_from]; [reflexivity|].
+  rewrite lin_from_qdmom. cbn [qdmom qpow]. ring.
+Qed.
+
+Lemma lin_from_add c : forall k (m1 m2 : nat -> Q),
+  lin_from k c (fun j => m1 j + m2 j) == lin_from k c m1 + lin_from k c m2.
+Proof. induction c as [|a c IH]; intros k m1 m2; cbn [lin_from]; [ring|]. rewrite IH. ring. Qed.
+Lemma lin_from_scal c : forall k (q : Q) (m : nat -> Q),
+  lin_from k c (fun j => q * m j) == q * lin_from k c m.
+Proof. induction c as [|a c IH]; intros k q m; cbn [lin_from]; [ring|]. rewrite IH. ring. Qed.
+
+Lemma D2Q_dmoment g k : D2Q (dmoment g k) == qdmom (inject_Z g) k.
+Proof.
+  destruct k as [|k]; cbn [dmoment qdmom]; [reflexivity|].
+  rewrite D2Q_mul, D2Q_dZ, D2Q_dpow, D2Q_dZ. reflexivity.
+Qed.
+
+Definition neumann_tol (steps : list Z) (w : list dy) (c : dy) (g : Z) (rtol : dy) (k : nat) : Q :=
+  D2Q rtol * D2Q (nmoment_abs steps w c g k).
+
+Lemma check_nmoment_sound steps w c g d rtol k :
+  check_nmoment steps w c g d rtol k = true ->
+  Qabs ((moment (Qw w) (Qsteps steps) k + D2Q c * qdmom (inject_Z g) k)
+        - (if Nat.eqb k d then inject_Z (zfact d) else 0))
+    <= neumann_tol steps w c g rtol k.
+Proof.
+  unfold check_nmoment, neumann_tol, nmoment.
+  rewrite dleb_spec, D2Q_abs, D2Q_sub, D2Q_mul, D2Q_add, D2Q_mul, D2Q_smoment, D2Q_dmoment, D2Q_target.
+  intros H; exact H.
+Qed.
+
+(* A polynomial with at most n coefficients a_0.. in the basis ((y - x)/h)^k; its derivative with respect to y at the boundary
+   point x + g h is  peval (pderiv a) g / h.  If the validator accepts the row, then
+       sum_i w_i p(x + s_i h)  +  c * h * p'(x + g h)  =  h^d p^(d)(x) = d! a_d
+   up to the stated bound, for EVERY such polynomial, every x and every h <> 0: the Neumann closure (matrix row plus the entry of
+   the boundary vector for the prescribed derivative) is exact on these polynomials. *)
+Theorem neumann_row_sound steps w c g d rtol n :
+  check_neumann_row steps w c g d rtol n = true ->
+  forall a, (length a <= n)%nat ->
+  forall x h, ~ h == 0 ->
+  Qabs (wsum (Qw w) (map (fun s => x + inject_Z s * h) steps) (fun y => peval a ((y - x) / h))
+        + D2Q c * h * (peval (pderiv a) (((x + inject_Z g * h) - x) / h) / h)
+        - inject_Z (zfact d) * nth d a 0)
+  <= abs_lin_from 0 a (neumann_tol steps w c g rtol).
+Proof.
+  unfold check_neumann_row. intros Hc a Hlen x h Hh.
+  apply andb_prop in Hc as [_ Hall]. rewrite forallb_forall in Hall.
+  assert (E1 : wsum (Qw w) (map (fun s => x + inject_Z s * h) steps) (fun y => peval a ((y - x) / h))
+               == wsum (Qw w) (Qsteps steps) (peval a)).
+  { unfold Qsteps.
+    replace (map (fun s : Z => x + inject_Z s * h) steps) with (map (fun t => x + t * h) (map inject_Z steps))
+      by (rewrite map_map; reflexivity).
+    rewrite wsum_map. apply wsum_ext. intro t. apply peval_ext. field. exact Hh. }
+  assert (E2 : D2Q c * h * (peval (pderiv a) (((x + inject_Z g * h) - x) / h) / h)
+               == D2Q c * peval (pderiv a) (inject_Z g)).
+  { rewrite (peval_ext (pderiv a) (((x + inject_Z g * h) - x) / h) (inject_Z g)) by (field; exact Hh). field. exact Hh. }
+  rewrite E1, E2, wsum_peval, peval_pderiv.
+  rewrite <- lin_from_scal, <- lin_from_add.
+  pose proof (lin_from_delta a 0 d (inject_Z (zfact d)) (Nat.le_0_l d)) as E3.
+  rewrite Nat.sub_0_r in E3. rewrite <- E3.
+  apply (lin_from_diff_bound a 0%nat _ _ _ n).
+  - intros j Hj. apply check_nmoment_sound. apply Hall. apply in_seq. lia.
+  - lia.
+Qed.
+
 (* ---------------- periodic matrix: the three eye() terms give exactly the wrap pattern ------- *)
 Open Scope Z_scope.
 
